@@ -399,16 +399,15 @@ def batch_shrink(trees, fails_batch, rounds=8, width=40):
         if not flat:
             break
         res = fails_batch(flat)
-        i = 0
+        base = 0
         progressed = False
         for j, cs in enumerate(cands):
-            for c in cs:
-                if res[i] and size(c) < size(cur[j]):
+            for off, c in enumerate(cs):
+                if res[base + off] and size(c) < size(cur[j]):
                     cur[j] = c
                     progressed = True
-                    i += len(cs) - cs.index(c)
                     break
-                i += 1
+            base += len(cs)
         if not progressed:
             break
     return cur
